@@ -197,15 +197,19 @@ func TestC05Table(t *testing.T) {
 	n := 0
 	run := func(c *Case, nontrivial bool) {
 		n++
-		c.NoOpt = n%2 == 0
 		if c.Obj.Mode != "map" && !c.Obj.StructOK() {
 			c.Obj.Mode = "map"
 		}
-		if e := runCase(c); e != nil {
-			violation(t, "C05", c, "%v", e)
+		// every cell with and without the optimizer (an alternation by cell
+		// number would tie the setting to the position's place in the list)
+		for _, noOpt := range []bool{false, true} {
+			c.NoOpt = noOpt
+			if e := runCase(c); e != nil {
+				violation(t, "C05", c, "%v", e)
+			}
+			cc := *c
+			col.Case(fmt.Sprint(c.Script, c.Vars, c.Obj, c.HostVals, c.NoOpt, c.UseRun), nontrivial, func() interface{} { return sampleOf(&cc) })
 		}
-		cc := c
-		col.Case(fmt.Sprint(c.Script, c.Vars, c.Obj, c.HostVals, c.NoOpt, c.UseRun), nontrivial, func() interface{} { return sampleOf(cc) })
 	}
 	for _, v := range truthValues {
 		for _, prov := range truthProvenances {
